@@ -242,6 +242,8 @@ func equals(t types.Type, x, y value) bool {
 		return x == y.(string)
 	case *value:
 		return x == y.(*value)
+	case unsafe.Pointer:
+		return x == y.(unsafe.Pointer)
 	case chan value:
 		return x == y.(chan value)
 	case structure:
